@@ -1,6 +1,6 @@
 (* Pure merge layer of the v2 configuration pipeline (property C03).  Transcription of
      pkg/utils/gnmiPathUtils.go                IsPathBelow
-     pkg/utils/path/path.go                    GetParentPath
+     pkg/utils/path/path.go                    GetParentPath (no longer used by the merge since 3126412)
      pkg/northbound/gnmi/v2/set_utils.go       computeChange
      pkg/controller/utils/utils.go             AddDeleteChildren (mutates the stored values it cascades to)
      pkg/controller/v2/proposal/controller.go  applyChangeToConfig, reconcileValidate's candidate / rollback
@@ -71,27 +71,33 @@ Definition get_parent_path (path : str) : str :=
   | _ => []
   end.
 
-(* applyChangeToConfig(values, path, value): values[path] = value; then walk up the textual parents and
-   delete the first one that is marked deleted, returning it.  The loop ends because every parent is
-   strictly shorter; the fuel is the length of the path. *)
-Fixpoint parent_walk (fuel : nat) (values : cfgmap) (parent : str) : cfgmap * option (str * path_value) :=
-  match fuel with
-  | O => (values, None)
-  | S f =>
-    match parent with
-    | [] => (values, None)
-    | _ =>
-      match map_get parent values with
-      | Some v => if pv_deleted v then (map_del parent values, Some (parent, v))
-                  else parent_walk f values (get_parent_path parent)
-      | None => parent_walk f values (get_parent_path parent)
-      end
-    end
+(* path[:i] for every i in 1..len-1 with path[i] == '/' or '[' (shortest first): the proper ancestors of a
+   path at path element boundaries, as isBelowDeletedPath, applyChangeToConfig and clearDeletedAncestors scan them *)
+Fixpoint bprefixes (acc rest : str) : list str :=
+  match rest with
+  | [] => []
+  | c :: rest' => (if is_boundary c then [acc] else []) ++ bprefixes (acc ++ [c]) rest'
+  end.
+
+(* nearest ancestor first (the loops run for i := len(path)-1; i > 0; i--) *)
+Definition boundary_ancestors (path : str) : list str :=
+  match path with
+  | [] => []
+  | c0 :: rest => rev (bprefixes [c0] rest)
+  end.
+
+(* applyChangeToConfig(values, path, value) (repaired, 3126412): values[path] = value; every ancestor at a path
+   element boundary that is marked deleted in the map is removed from it; the outermost one is returned *)
+Definition drop_deleted_ancestor (acc : cfgmap * option (str * path_value)) (parent : str)
+  : cfgmap * option (str * path_value) :=
+  match map_get parent (fst acc) with
+  | Some v => if pv_deleted v then (map_del parent (fst acc), Some (parent, v)) else acc
+  | None => acc
   end.
 
 Definition apply_change_to_config (values : cfgmap) (path : str) (value : path_value)
   : cfgmap * option (str * path_value) :=
-  parent_walk (S (length path)) (map_set path value values) (get_parent_path path).
+  fold_left drop_deleted_ancestor (boundary_ancestors path) (map_set path value values, None).
 
 (* the in-place mutation AddDeleteChildren performs on a stored object *)
 Definition mark_deleted (index : N) (v : path_value) : path_value :=
@@ -123,29 +129,30 @@ Definition commit_merge (index : N) (change values : cfgmap) : cfgmap :=
   let r := add_delete_children index change values in
   apply_all (snd r) (fst r).
 
-(* reconcileValidate, change case: candidate values (fed to BuildTree) and rollback values *)
+(* reconcileValidate, change case: candidate values (fed to BuildTree) and rollback values (585a403: a delete's
+   rollback also restores every live stored value beneath the deleted path; no tombstone rollback value for a
+   delete of something that was not stored) *)
 Definition validate_change (values change : cfgmap) : cfgmap * cfgmap :=
   fold_left (fun acc kv =>
                let path := fst kv in
-               let r := apply_change_to_config (fst acc) path (snd kv) in
+               let cv := snd kv in
+               let r := apply_change_to_config (fst acc) path cv in
                let rb1 := match snd r with Some (dp, dv) => map_set dp dv (snd acc) | None => snd acc end in
                let rb2 := match map_get path values with
-                          | Some cv => map_set path cv rb1
-                          | None => map_set path (mkPV path [] true 0) rb1
+                          | Some c => map_set path c rb1
+                          | None => if pv_deleted cv then rb1 else map_set path (mkPV path [] true 0) rb1
                           end in
-               (fst r, rb2))
+               let rb3 := if pv_deleted cv then
+                            fold_left (fun rb ckv => if negb (pv_deleted (snd ckv)) && is_path_below (fst ckv) path
+                                                     then map_set (fst ckv) (snd ckv) rb else rb) values rb2
+                          else rb2 in
+               (fst r, rb3))
             change (values, []).
 
 Definition candidate (values change : cfgmap) : cfgmap := fst (validate_change values change).
 Definition rollback_of (values change : cfgmap) : cfgmap := snd (validate_change values change).
 
 (* tree.isBelowDeletedPath *)
-Fixpoint bprefixes (acc rest : str) : list str :=
-  match rest with
-  | [] => []
-  | c :: rest' => (if is_boundary c then [acc] else []) ++ bprefixes (acc ++ [c]) rest'
-  end.
-
 Definition mem_str (s : str) (l : list str) : bool := existsb (eqb_str s) l.
 
 Definition is_below_deleted (path : str) (deleted : list str) : bool :=
